@@ -40,25 +40,25 @@ func init() {
 		"[!(py.IsException(py.SystemExit, err!)) && !(recv.continuation) && (py.Context).RunCode#1 != nil && dyn:py.Compile#1 == nil && toCompile != \"\"] vm.PrintExpr = recv.term.Print; defer(func() { vm.PrintExpr = oldPrintExpr }()); Compile(toCompile + \"\\n\", recv.prog, py.SingleMode, 0, true); recv.continuation = false; recv.term.SetPrompt(\">>> \"); recv.previous = \"\"; recv.Context.RunCode(dyn:py.Compile#0, recv.Module.Globals, recv.Module.Globals, nil); TracebackDump(err!) -> nil",
 		"[!(py.IsException(py.SystemExit, err!)) && (py.Context).RunCode#1 != nil && dyn:py.Compile#1 == nil && p1 == \"\" && recv.continuation && toCompile != \"\"] vm.PrintExpr = recv.term.Print; defer(func() { vm.PrintExpr = oldPrintExpr }()); Compile(toCompile + \"\\n\", recv.prog, py.SingleMode, 0, true); recv.continuation = false; recv.term.SetPrompt(\">>> \"); recv.previous = \"\"; recv.Context.RunCode(dyn:py.Compile#0, recv.Module.Globals, recv.Module.Globals, nil); TracebackDump(err!) -> nil",
 		"[!(recv.continuation) && !(strings.Contains((.error).Error#0, \"EOF while scanning triple-quote…#1cd5d4c0\")) && !(strings.Contains((.error).Error#0, \"unexpected EOF while parsing\")) && dyn:py.Compile#1 != nil && toCompile != \"\"] vm.PrintExpr = recv.term.Print; defer(func() { vm.PrintExpr = oldPrintExpr }()); Compile(toCompile + \"\\n\", recv.prog, py.SingleMode, 0, true); recv.continuation = false; recv.term.SetPrompt(\">>> \"); recv.previous = \"\"; recv.term.Print(fmt.Sprintf#0) -> nil",
-		"[!(recv.continuation) && !(strings.Contains((.error).Error#0, \"unexpected EOF while parsing\")) && dyn:py.Compile#1 != nil && len(strings.TrimSpace#0) != 0 && strings.Contains((.error).Error#0, \"EOF while scanning triple-quote…#1cd5d4c0\") && strings.TrimSpace#0[0] != 35 && toCompile != \"\"] vm.PrintExpr = recv.term.Print; defer(func() { vm.PrintExpr = oldPrintExpr }()); Compile(toCompile + \"\\n\", recv.prog, py.SingleMode, 0, true); recv.continuation = true; r.previous += string(p1) + \"\\n\"; recv.term.SetPrompt(\"... \") -> nil",
+		"[!(recv.continuation) && !(strings.Contains((.error).Error#0, \"unexpected EOF while parsing\")) && dyn:py.Compile#1 != nil && len(strings.TrimSpace#0) != 0 && strings.Contains((.error).Error#0, \"EOF while scanning triple-quote…#1cd5d4c0\") && strings.TrimSpace#0[0] != 35 && toCompile != \"\"] vm.PrintExpr = recv.term.Print; defer(func() { vm.PrintExpr = oldPrintExpr }()); Compile(toCompile + \"\\n\", recv.prog, py.SingleMode, 0, true); recv.continuation = true; recv.previous += p1 + \"\\n\"; recv.term.SetPrompt(\"... \") -> nil",
 		"[!(recv.continuation) && !(strings.Contains((.error).Error#0, \"unexpected EOF while parsing\")) && dyn:py.Compile#1 != nil && len(strings.TrimSpace#0) != 0 && strings.Contains((.error).Error#0, \"EOF while scanning triple-quote…#1cd5d4c0\") && strings.TrimSpace#0[0] == 35 && toCompile != \"\"] vm.PrintExpr = recv.term.Print; defer(func() { vm.PrintExpr = oldPrintExpr }()); Compile(toCompile + \"\\n\", recv.prog, py.SingleMode, 0, true) -> nil",
-		"[!(recv.continuation) && !(strings.Contains((.error).Error#0, \"unexpected EOF while parsing\")) && dyn:py.Compile#1 != nil && len(strings.TrimSpace#0) == 0 && strings.Contains((.error).Error#0, \"EOF while scanning triple-quote…#1cd5d4c0\") && toCompile != \"\"] vm.PrintExpr = recv.term.Print; defer(func() { vm.PrintExpr = oldPrintExpr }()); Compile(toCompile + \"\\n\", recv.prog, py.SingleMode, 0, true); recv.continuation = true; r.previous += string(p1) + \"\\n\"; recv.term.SetPrompt(\"... \") -> nil",
+		"[!(recv.continuation) && !(strings.Contains((.error).Error#0, \"unexpected EOF while parsing\")) && dyn:py.Compile#1 != nil && len(strings.TrimSpace#0) == 0 && strings.Contains((.error).Error#0, \"EOF while scanning triple-quote…#1cd5d4c0\") && toCompile != \"\"] vm.PrintExpr = recv.term.Print; defer(func() { vm.PrintExpr = oldPrintExpr }()); Compile(toCompile + \"\\n\", recv.prog, py.SingleMode, 0, true); recv.continuation = true; recv.previous += p1 + \"\\n\"; recv.term.SetPrompt(\"... \") -> nil",
 		"[!(recv.continuation) && (py.Context).RunCode#1 != nil && dyn:py.Compile#1 == nil && py.IsException(py.SystemExit, err!) && toCompile != \"\"] vm.PrintExpr = recv.term.Print; defer(func() { vm.PrintExpr = oldPrintExpr }()); Compile(toCompile + \"\\n\", recv.prog, py.SingleMode, 0, true); recv.continuation = false; recv.term.SetPrompt(\">>> \"); recv.previous = \"\"; recv.Context.RunCode(dyn:py.Compile#0, recv.Module.Globals, recv.Module.Globals, nil) -> err!",
 		"[!(recv.continuation) && (py.Context).RunCode#1 == nil && dyn:py.Compile#1 == nil && toCompile != \"\"] vm.PrintExpr = recv.term.Print; defer(func() { vm.PrintExpr = oldPrintExpr }()); Compile(toCompile + \"\\n\", recv.prog, py.SingleMode, 0, true); recv.continuation = false; recv.term.SetPrompt(\">>> \"); recv.previous = \"\"; recv.Context.RunCode(dyn:py.Compile#0, recv.Module.Globals, recv.Module.Globals, nil) -> nil",
-		"[!(recv.continuation) && dyn:py.Compile#1 != nil && len(strings.TrimSpace#0) != 0 && strings.Contains((.error).Error#0, \"unexpected EOF while parsing\") && strings.TrimSpace#0[0] != 35 && toCompile != \"\"] vm.PrintExpr = recv.term.Print; defer(func() { vm.PrintExpr = oldPrintExpr }()); Compile(toCompile + \"\\n\", recv.prog, py.SingleMode, 0, true); recv.continuation = true; r.previous += string(p1) + \"\\n\"; recv.term.SetPrompt(\"... \") -> nil",
+		"[!(recv.continuation) && dyn:py.Compile#1 != nil && len(strings.TrimSpace#0) != 0 && strings.Contains((.error).Error#0, \"unexpected EOF while parsing\") && strings.TrimSpace#0[0] != 35 && toCompile != \"\"] vm.PrintExpr = recv.term.Print; defer(func() { vm.PrintExpr = oldPrintExpr }()); Compile(toCompile + \"\\n\", recv.prog, py.SingleMode, 0, true); recv.continuation = true; recv.previous += p1 + \"\\n\"; recv.term.SetPrompt(\"... \") -> nil",
 		"[!(recv.continuation) && dyn:py.Compile#1 != nil && len(strings.TrimSpace#0) != 0 && strings.Contains((.error).Error#0, \"unexpected EOF while parsing\") && strings.TrimSpace#0[0] == 35 && toCompile != \"\"] vm.PrintExpr = recv.term.Print; defer(func() { vm.PrintExpr = oldPrintExpr }()); Compile(toCompile + \"\\n\", recv.prog, py.SingleMode, 0, true) -> nil",
-		"[!(recv.continuation) && dyn:py.Compile#1 != nil && len(strings.TrimSpace#0) == 0 && strings.Contains((.error).Error#0, \"unexpected EOF while parsing\") && toCompile != \"\"] vm.PrintExpr = recv.term.Print; defer(func() { vm.PrintExpr = oldPrintExpr }()); Compile(toCompile + \"\\n\", recv.prog, py.SingleMode, 0, true); recv.continuation = true; r.previous += string(p1) + \"\\n\"; recv.term.SetPrompt(\"... \") -> nil",
+		"[!(recv.continuation) && dyn:py.Compile#1 != nil && len(strings.TrimSpace#0) == 0 && strings.Contains((.error).Error#0, \"unexpected EOF while parsing\") && toCompile != \"\"] vm.PrintExpr = recv.term.Print; defer(func() { vm.PrintExpr = oldPrintExpr }()); Compile(toCompile + \"\\n\", recv.prog, py.SingleMode, 0, true); recv.continuation = true; recv.previous += p1 + \"\\n\"; recv.term.SetPrompt(\"... \") -> nil",
 		"[!(recv.continuation) && toCompile == \"\"] vm.PrintExpr = recv.term.Print; defer(func() { vm.PrintExpr = oldPrintExpr }()) -> nil",
 		"[!(strings.Contains((.error).Error#0, \"EOF while scanning triple-quote…#1cd5d4c0\")) && !(strings.Contains((.error).Error#0, \"unexpected EOF while parsing\")) && dyn:py.Compile#1 != nil && p1 == \"\" && recv.continuation && toCompile != \"\"] vm.PrintExpr = recv.term.Print; defer(func() { vm.PrintExpr = oldPrintExpr }()); Compile(toCompile + \"\\n\", recv.prog, py.SingleMode, 0, true); recv.continuation = false; recv.term.SetPrompt(\">>> \"); recv.previous = \"\"; recv.term.Print(fmt.Sprintf#0) -> nil",
-		"[!(strings.Contains((.error).Error#0, \"unexpected EOF while parsing\")) && dyn:py.Compile#1 != nil && len(strings.TrimSpace#0) != 0 && p1 == \"\" && recv.continuation && strings.Contains((.error).Error#0, \"EOF while scanning triple-quote…#1cd5d4c0\") && strings.TrimSpace#0[0] != 35 && toCompile != \"\"] vm.PrintExpr = recv.term.Print; defer(func() { vm.PrintExpr = oldPrintExpr }()); Compile(toCompile + \"\\n\", recv.prog, py.SingleMode, 0, true); recv.continuation = true; r.previous += string(p1) + \"\\n\"; recv.term.SetPrompt(\"... \") -> nil",
+		"[!(strings.Contains((.error).Error#0, \"unexpected EOF while parsing\")) && dyn:py.Compile#1 != nil && len(strings.TrimSpace#0) != 0 && p1 == \"\" && recv.continuation && strings.Contains((.error).Error#0, \"EOF while scanning triple-quote…#1cd5d4c0\") && strings.TrimSpace#0[0] != 35 && toCompile != \"\"] vm.PrintExpr = recv.term.Print; defer(func() { vm.PrintExpr = oldPrintExpr }()); Compile(toCompile + \"\\n\", recv.prog, py.SingleMode, 0, true); recv.continuation = true; recv.previous += p1 + \"\\n\"; recv.term.SetPrompt(\"... \") -> nil",
 		"[!(strings.Contains((.error).Error#0, \"unexpected EOF while parsing\")) && dyn:py.Compile#1 != nil && len(strings.TrimSpace#0) != 0 && p1 == \"\" && recv.continuation && strings.Contains((.error).Error#0, \"EOF while scanning triple-quote…#1cd5d4c0\") && strings.TrimSpace#0[0] == 35 && toCompile != \"\"] vm.PrintExpr = recv.term.Print; defer(func() { vm.PrintExpr = oldPrintExpr }()); Compile(toCompile + \"\\n\", recv.prog, py.SingleMode, 0, true) -> nil",
-		"[!(strings.Contains((.error).Error#0, \"unexpected EOF while parsing\")) && dyn:py.Compile#1 != nil && len(strings.TrimSpace#0) == 0 && p1 == \"\" && recv.continuation && strings.Contains((.error).Error#0, \"EOF while scanning triple-quote…#1cd5d4c0\") && toCompile != \"\"] vm.PrintExpr = recv.term.Print; defer(func() { vm.PrintExpr = oldPrintExpr }()); Compile(toCompile + \"\\n\", recv.prog, py.SingleMode, 0, true); recv.continuation = true; r.previous += string(p1) + \"\\n\"; recv.term.SetPrompt(\"... \") -> nil",
+		"[!(strings.Contains((.error).Error#0, \"unexpected EOF while parsing\")) && dyn:py.Compile#1 != nil && len(strings.TrimSpace#0) == 0 && p1 == \"\" && recv.continuation && strings.Contains((.error).Error#0, \"EOF while scanning triple-quote…#1cd5d4c0\") && toCompile != \"\"] vm.PrintExpr = recv.term.Print; defer(func() { vm.PrintExpr = oldPrintExpr }()); Compile(toCompile + \"\\n\", recv.prog, py.SingleMode, 0, true); recv.continuation = true; recv.previous += p1 + \"\\n\"; recv.term.SetPrompt(\"... \") -> nil",
 		"[(py.Context).RunCode#1 != nil && dyn:py.Compile#1 == nil && p1 == \"\" && py.IsException(py.SystemExit, err!) && recv.continuation && toCompile != \"\"] vm.PrintExpr = recv.term.Print; defer(func() { vm.PrintExpr = oldPrintExpr }()); Compile(toCompile + \"\\n\", recv.prog, py.SingleMode, 0, true); recv.continuation = false; recv.term.SetPrompt(\">>> \"); recv.previous = \"\"; recv.Context.RunCode(dyn:py.Compile#0, recv.Module.Globals, recv.Module.Globals, nil) -> err!",
 		"[(py.Context).RunCode#1 == nil && dyn:py.Compile#1 == nil && p1 == \"\" && recv.continuation && toCompile != \"\"] vm.PrintExpr = recv.term.Print; defer(func() { vm.PrintExpr = oldPrintExpr }()); Compile(toCompile + \"\\n\", recv.prog, py.SingleMode, 0, true); recv.continuation = false; recv.term.SetPrompt(\">>> \"); recv.previous = \"\"; recv.Context.RunCode(dyn:py.Compile#0, recv.Module.Globals, recv.Module.Globals, nil) -> nil",
-		"[dyn:py.Compile#1 != nil && len(strings.TrimSpace#0) != 0 && p1 == \"\" && recv.continuation && strings.Contains((.error).Error#0, \"unexpected EOF while parsing\") && strings.TrimSpace#0[0] != 35 && toCompile != \"\"] vm.PrintExpr = recv.term.Print; defer(func() { vm.PrintExpr = oldPrintExpr }()); Compile(toCompile + \"\\n\", recv.prog, py.SingleMode, 0, true); recv.continuation = true; r.previous += string(p1) + \"\\n\"; recv.term.SetPrompt(\"... \") -> nil",
+		"[dyn:py.Compile#1 != nil && len(strings.TrimSpace#0) != 0 && p1 == \"\" && recv.continuation && strings.Contains((.error).Error#0, \"unexpected EOF while parsing\") && strings.TrimSpace#0[0] != 35 && toCompile != \"\"] vm.PrintExpr = recv.term.Print; defer(func() { vm.PrintExpr = oldPrintExpr }()); Compile(toCompile + \"\\n\", recv.prog, py.SingleMode, 0, true); recv.continuation = true; recv.previous += p1 + \"\\n\"; recv.term.SetPrompt(\"... \") -> nil",
 		"[dyn:py.Compile#1 != nil && len(strings.TrimSpace#0) != 0 && p1 == \"\" && recv.continuation && strings.Contains((.error).Error#0, \"unexpected EOF while parsing\") && strings.TrimSpace#0[0] == 35 && toCompile != \"\"] vm.PrintExpr = recv.term.Print; defer(func() { vm.PrintExpr = oldPrintExpr }()); Compile(toCompile + \"\\n\", recv.prog, py.SingleMode, 0, true) -> nil",
-		"[dyn:py.Compile#1 != nil && len(strings.TrimSpace#0) == 0 && p1 == \"\" && recv.continuation && strings.Contains((.error).Error#0, \"unexpected EOF while parsing\") && toCompile != \"\"] vm.PrintExpr = recv.term.Print; defer(func() { vm.PrintExpr = oldPrintExpr }()); Compile(toCompile + \"\\n\", recv.prog, py.SingleMode, 0, true); recv.continuation = true; r.previous += string(p1) + \"\\n\"; recv.term.SetPrompt(\"... \") -> nil",
-		"[p1 != \"\" && recv.continuation] vm.PrintExpr = recv.term.Print; defer(func() { vm.PrintExpr = oldPrintExpr }()); r.previous += string(p1) + \"\\n\" -> nil",
+		"[dyn:py.Compile#1 != nil && len(strings.TrimSpace#0) == 0 && p1 == \"\" && recv.continuation && strings.Contains((.error).Error#0, \"unexpected EOF while parsing\") && toCompile != \"\"] vm.PrintExpr = recv.term.Print; defer(func() { vm.PrintExpr = oldPrintExpr }()); Compile(toCompile + \"\\n\", recv.prog, py.SingleMode, 0, true); recv.continuation = true; recv.previous += p1 + \"\\n\"; recv.term.SetPrompt(\"... \") -> nil",
+		"[p1 != \"\" && recv.continuation] vm.PrintExpr = recv.term.Print; defer(func() { vm.PrintExpr = oldPrintExpr }()); recv.previous += p1 + \"\\n\" -> nil",
 		"[p1 == \"\" && recv.continuation && toCompile == \"\"] vm.PrintExpr = recv.term.Print; defer(func() { vm.PrintExpr = oldPrintExpr }()) -> nil",
 	}
 	// block analysis order: for a class block the sets handed to children are copied from bound/global BEFORE the block's own names are analysed (class bindings, including a `global` in the class body, are not visible in methods); for other blocks after; children are analysed on those sets; cells computed for function blocks, __class__ dropped for class blocks; symbols updated; free propagated [symtable.c analyze_block]  []
